@@ -602,8 +602,9 @@ func (s *hybridSearch) Execute() ([]HybridSearchResult, error) {
 		combinedScores = make(map[uint32]float64)
 	}
 
-	// If only metadata search was performed (no vector or text)
-	if len(combinedScores) == 0 && len(candidateIDs) > 0 {
+	// If only metadata search was performed (no vector or text query given).
+	// A query that was given but matched nothing must not fall back to this.
+	if len(s.vectorQuery) == 0 && len(s.textQueries) == 0 && len(candidateIDs) > 0 {
 		for _, id := range candidateIDs {
 			combinedScores[id] = 1.0
 		}
